@@ -186,6 +186,77 @@ theorem effectMemoryS3m_byte (env : Env) {fxp : Int} (volMem : Int) (hp : 0 ≤ 
     · exact hp
   · exact hp
 
+/-! ### FAR tempo effects -/
+
+theorem farShiftLoop_count : ∀ (n : Nat) (d t k : Int), k ≤ (farShiftLoop n d t k).2 ∧ (farShiftLoop n d t k).2 ≤ k + n := by
+  intro n
+  induction n with
+  | zero => intro d t k; simp [farShiftLoop]
+  | succ n ih =>
+    intro d t k
+    unfold farShiftLoop
+    split
+    · have := ih (d / 2) (t * 2) (k + 1)
+      omega
+    · simp only; omega
+
+theorem farNewTempo_range {tempo : Int} {r : Int × Int} (h : farNewTempo tempo = some r) :
+    (4 ≤ r.1 ∧ r.1 ≤ 37) ∧ minBpm ≤ r.2 := by
+  unfold farNewTempo at h
+  split at h
+  · cases h
+  · simp only [Option.some.injEq] at h
+    have c := farShiftLoop_count 32 ((Int.tdiv farPitClock tempo) % 4294967296) tempo 0
+    subst h
+    refine ⟨?_, ?_⟩
+    · simp only; split <;> omega
+    · simp only; split <;> omega
+
+theorem farOldTempo_range (base fine1 : Int) : (farOldTempo base fine1).1 = 16 ∧ minBpm ≤ (farOldTempo base fine1).2 := by
+  unfold farOldTempo
+  have e : (4 : Int) * 2 ^ farOldTempoShift.toNat = 16 := by decide
+  refine ⟨e, ?_⟩
+  simp only
+  split <;> omega
+
+/-- `libxmp_far_translate_tempo`, when it returns 0, gives a speed in 4..37 and a tempo of at least
+`XMP_MIN_BPM` — for EVERY mode, fine change, coarse and fine tempo, negative tempos included. -/
+theorem farTranslate_range (mode fc coarse fine : Int) {r : Int × Int}
+    (h : (farTranslate mode fc coarse fine).2 = some r) : (4 ≤ r.1 ∧ r.1 ≤ 37) ∧ minBpm ≤ r.2 := by
+  unfold farTranslate at h
+  split at h
+  · cases h
+  · simp only at h
+    split at h
+    · exact farNewTempo_range h
+    · simp only [Option.some.injEq] at h
+      subst h
+      have := farOldTempo_range (farTempos.getD coarse.toNat 0) (farFineClamp fc (farTempos.getD coarse.toNat 0) fine)
+      omega
+
+theorem farUpdate_ok {f : Flow} (h : FlowOk f) (fc : Int) : FlowOk (farUpdate f fc) := by
+  unfold farUpdate
+  have hmb : (1 : Int) ≤ minBpm := by decide
+  split
+  · rename_i r heq
+    have q := farTranslate_range _ _ _ _ heq
+    exact ⟨by simp only; omega, by simp only; omega, h.st26, h.jump, h.jumpline⟩
+  · exact ⟨h.speed, h.bpm, h.st26, h.jump, h.jumpline⟩
+
+theorem farTempoFx_ok {f : Flow} (h : FlowOk f) (fxt fxp : Int) : FlowOk (farTempoFx f fxt fxp) := by
+  have k : ∀ g : Flow, g.speed = f.speed → g.bpm = f.bpm → g.st26 = f.st26 → g.jump = f.jump → g.jumpline = f.jumpline → FlowOk g :=
+    fun g a b c d e => ⟨by rw [a]; exact h.speed, by rw [b]; exact h.bpm, by rw [c]; exact h.st26, by rw [d]; exact h.jump,
+      by rw [e]; exact h.jumpline⟩
+  unfold farTempoFx
+  split
+  · refine farUpdate_ok ?_ _
+    split <;> exact k _ rfl rfl rfl rfl rfl
+  · split
+    · refine farUpdate_ok ?_ _; exact k _ rfl rfl rfl rfl rfl
+    · split
+      · refine farUpdate_ok ?_ _; exact k _ rfl rfl rfl rfl rfl
+      · refine farUpdate_ok ?_ _; exact k _ rfl rfl rfl rfl rfl
+
 /-- **FxRange, one call**: `libxmp_process_fx` with any effect number, a parameter byte, any
 channel, any ST3 effect memory and any pattern-loop bookkeeping keeps speed in 1..255, tempo ≥ 1,
 `st26_speed` well-formed, `jump ≥ -1`, `jumpline ≥ 0`. -/
@@ -292,7 +363,7 @@ theorem processFx_ok {env : Env} (he : EnvOk env) {ord row : Int} (chn volMem fx
       · exact h.jump
   rw [if_neg c15] at hq
   split at hq
-  · cases hq
+  · cases hq; exact farTempoFx_ok h _ _
   · cases hq; exact h
 
 theorem cdSpeed1_ok {f : Flow} (h : FlowOk f) (t : Int) {p : Int} (hp : 0 ≤ p ∧ p ≤ 255) : FlowOk (cdSpeed1 t p f) := by
@@ -414,11 +485,12 @@ theorem st26StepFlow_eq (s : St) (x : Extras) : ofFlow s (st26StepFlow (toFlow s
         rowdelay, numRows, endPoint, ftBpm⟩ x).st26 ≠ 0 := h
     rw [if_neg h', if_neg h]; rfl
 
-/-- side conditions of a primitive write: parameters are bytes; a FAR tempo effect of a FAR module is
-not an `fx` write (it is `raw`); an unmodelled write stays inside `Seq.EffOk` (monitored) -/
-def PrimOk (env : Env) : Prim → Prop
-  | .fx _ _ _ fxt fxp => (0 ≤ fxp ∧ fxp ≤ 255) ∧ ¬ (env.far = true ∧ (fxt = fxFarTempo ∨ fxt = fxFarFTempo))
-  | .row _ chans => (∀ c ∈ chans, EvOk c.1) ∧ env.far = false
+/-- side conditions of a primitive write: parameters are bytes (FAR modules and their tempo effects
+included: they are modelled); a write by unmodelled code (`raw`, not needed for libxmp's player)
+stays inside `Seq.EffOk` -/
+def PrimOk (_env : Env) : Prim → Prop
+  | .fx _ _ _ _ fxp => 0 ≤ fxp ∧ fxp ≤ 255
+  | .row _ chans => ∀ c ∈ chans, EvOk c.1
   | .cdSpeed e => EvOk e
   | .tempoSlide _ => True
   | .gvol _ => True
@@ -457,12 +529,12 @@ theorem applyPrim_ok {env : Env} (he : EnvOk env) {s : St} (h : StOk s) {p : Pri
     | none => exact ⟨h, KFix.refl s⟩
     | some r =>
       obtain ⟨f, vm⟩ := r
-      exact ofFlow_ok h (processFx_ok he chn volMem fxt h.ord h.row hp.1 (toFlow_ok h x) hq)
+      exact ofFlow_ok h (processFx_ok he chn volMem fxt h.ord h.row hp (toFlow_ok h x) hq)
   | row x chans =>
     simp only [applyPrim]
     cases hq : readRow env s.ord s.row s.frame 0 chans (toFlow s x) with
     | none => exact ⟨h, KFix.refl s⟩
-    | some f => exact ofFlow_ok h (readRow_ok he s.frame h.ord h.row chans 0 _ f hp.1 (toFlow_ok h x) hq)
+    | some f => exact ofFlow_ok h (readRow_ok he s.frame h.ord h.row chans 0 _ f hp (toFlow_ok h x) hq)
   | cdSpeed e => exact ofFlow_ok h (checkDelaySpeed_ok (toFlow_ok h {}) hp.1 hp.2)
   | tempoSlide d => exact ofFlow_ok h (tempoSlideStep_ok (toFlow_ok h {}) d)
   | gvol v => exact ⟨⟨h.speed, h.bpm, h.st26, h.jump, h.jumpline, h.ord, h.row⟩, ⟨rfl, rfl, rfl, rfl, rfl, rfl, rfl, rfl, rfl⟩⟩
